@@ -178,13 +178,20 @@ def run(ck):
         base = L.exchange(mode, al, sc, ns, acts, rounds, tick, marks=True)
         n = L.frames_in(runner.run_batch(hcs, [("b", base)])["b"]["out"])
 
-        def add(kind, lose=(), dup=()):
+        def add(kind, lose=(), dup=(), quiet=(), extra=""):
             sid = "%s.%s.%s%s" % (tag, kind, "_".join(map(str, sorted(lose)[:4])), ("+d" + "_".join(map(str, sorted(dup)))) if dup else "")
             if sid in meta:
                 return
-            scripts.append((sid, L.exchange(mode, al, sc, ns, acts, rounds, tick, lose=lose, dup=dup, marks=True)))
+            scripts.append((sid, L.exchange(mode, al, sc, ns, acts, rounds, tick, lose=lose, dup=dup, marks=True, quiet=quiet, extra_cfg=extra)))
             meta[sid] = dict(mode=mode, al=al, ns=ns, kind=kind, lose=sorted(lose), dup=sorted(dup))
         add("base")
+        if mode == "unb" and not eager:
+            # a silent line for longer than the secondary's idle supervision, after an odd / even number of frames; then traffic again.
+            # And an idle supervision shorter than the acknowledgement timeout with every single answer lost in turn.
+            for q0 in (44, 45, 46, 47):
+                add("quiet%d" % q0, quiet=range(q0, q0 + 12), extra=" idle=500")
+            for k in range(1, n + 1, 3):
+                add("shortidle", [k], extra=" idle=100")
         for k in range(1, n + 1):
             add("single", [k])
         for k in range(1, n + 1, 1 if not quick else 2):
